@@ -248,6 +248,7 @@ def run_case(case, cfg, out):
         if not check_decl(d, decl_iter[k], 'operand %d' % k):
             return
 
+    results = []        # (result of + / -, what it iterated, description)
     for opi, (op, a, bkind, b) in enumerate(case['ops']):
         A = decl_objs[a % len(decl_objs)]
         ma = decl_iter[a % len(decl_objs)]
@@ -328,3 +329,27 @@ def run_case(case, cfg, out):
         if before != after:
             out.fail('operand-modified', '%s modified an operand' % what)
             return
+        if op in ('add', 'sub'):
+            results.append((R, real_iter(R), what))
+
+    # A sum or difference lists the interfaces its operands had when it was
+    # computed: declaring one more interface for every class afterwards
+    # (which changes the class specifications that were operands) must not
+    # change what an earlier result iterates - a result that is, or hangs
+    # on, its operand would (seed C20i: `A + B` returning A itself when B
+    # adds nothing).
+    if classes and results:
+        extra = InterfaceClass('%s_late' % tag, (Interface,), {},
+                               __module__='verif.c20')
+        for cls in classes:
+            classImplements(cls, extra)
+        for R, got, what in results:
+            out.checks += 1
+            now = real_iter(R)
+            if now != got:
+                out.fail('result-follows-operand',
+                         '%s iterated %r; after one more interface was '
+                         'declared for the operand classes it iterates %r'
+                         % (what, got, now))
+                return
+        out.tag('late_declaration')
